@@ -843,6 +843,8 @@ class Interp:
             return
         if k is Return:
             v = self.ev(s.e) if s.e is not None else None
+            if self.depth == 1:
+                self.sym.ret_line = s.line
             raise ReturnSig(v)
         if k is Throw:
             if s.e is None:
